@@ -8,7 +8,7 @@
 set -eu
 bd="$1"; ov="$2"; repo="$3"
 here="$(cd "$(dirname "$0")" && pwd)"
-/verif/internal/crashfs/mkoverlay.py "$bd" "$ov" "$repo" lib/others/qdb
+/verif/internal/crashfs/mkoverlay.py "$bd" "$ov" "$repo" lib/others/qdb >&2
 python3 - "$bd" "$ov" "$repo" "$here/accessor.go.in" <<'PY'
 import json, os, re, sys
 bd, ov, repo, acc = sys.argv[1:5]
